@@ -118,6 +118,53 @@ def find_guard(tu, f, access, idx, length, bound):
     return None
 
 
+def helper_overrun(tu, g, ptr_params, len_param):
+    """accesses of constant extent through a pointer parameter of a (ptr…, len) helper that are not justified by a lower bound on
+    len established on the path"""
+    import rf_proto
+    out = []
+    cfg = g.cfg
+    for x in g.walk():
+        if x['k'] != 'CallExpr' or x.get('callee') not in ('memcpy', 'memmove', 'memset'):
+            continue
+        a = F.call_args(x)
+        n = F.const_value(F.strip(a[2]))
+        if n is None:
+            continue  # variable extent: the length parameter itself (or derived) — covered by the caller's guard
+        for role, pe in (('writes', a[0]),) + ((('reads', a[1]),) if x['callee'] != 'memset' else ()):
+            e = F.strip(pe)
+            off = 0
+            base = e
+            if e['k'] == 'BinaryOperator' and e['op'] == '+':
+                base = F.strip(e['c'][0])
+                off = F.const_value(F.strip(e['c'][1]))
+                if off is None:
+                    continue
+            if base['k'] != 'DeclRefExpr' or base['n'] not in ptr_params:
+                continue
+            b = cfg.block_of(x)
+            lb = 0
+            for c, t in (rf_proto.dominating_conditions(cfg, b) if b is not None else []):
+                import re as _r
+                m = _r.fullmatch(r'\(%s (>|>=|<=|<) (\d+)\)' % _r.escape(len_param), c)
+                if not m:
+                    continue
+                op, k = m.group(1), int(m.group(2))
+                if t and op == '>':
+                    lb = max(lb, k + 1)
+                elif t and op == '>=':
+                    lb = max(lb, k)
+                elif (not t) and op == '<=':
+                    lb = max(lb, k + 1)
+                elif (not t) and op == '<':
+                    lb = max(lb, k)
+            if lb < off + n:
+                out.append((x, '%s %s %d bytes at %s+%d although only %s bytes are covered by the caller\'s bound check (the path '
+                               'establishes %s >= %d at most): the access can run past the buffer' %
+                            (g.name, role, n, base['n'], off, len_param, len_param, lb)))
+    return out
+
+
 def rf13(run, header='mir-reduce.h', unit='mir'):
     rule = 'RF13'
     run.rule(rule, 'every variable-length block access (memcpy source/destination, reader-callback destination) on a fixed-size '
@@ -144,6 +191,24 @@ def rf13(run, header='mir-reduce.h', unit='mir'):
                 c0 = F.strip(call['c'][0])
                 t = tu.type(c0)
                 ranges = [('callback buffer', args[0], args[1])]
+            elif callee in tu.funcs and any(elem_address(tu, a) is not None and elem_address(tu, a)[2] is not None for a in args):
+                # a helper of the unit receives pointers into the fixed buffers plus a length: the caller must guard idx + len,
+                # and the helper must stay within [ptr, ptr + len)
+                lens = [a for a in args if elem_address(tu, a) is None and tu.type(F.strip(a)) is not None
+                        and tu.type(F.strip(a)).kind == 'int' and F.const_value(F.strip(a)) is None]
+                if len(lens) == 1:
+                    for j, a in enumerate(args):
+                        if elem_address(tu, a) is not None and elem_address(tu, a)[2] is not None:
+                            ranges.append(('helper %s argument %d' % (callee, j + 1), a, lens[0]))
+                    g = tu.funcs[callee]
+                    li = [j for j, a in enumerate(args) if a is lens[0]][0]
+                    pis = [j for j, a in enumerate(args) if elem_address(tu, a) is not None and elem_address(tu, a)[2] is not None]
+                    for site, msg in helper_overrun(tu, g, [g.params[j]['n'] for j in pis if j < len(g.params)], g.params[li]['n']):
+                        n += 1
+                        run.ob(rule, (g.name, site['l']), False)
+                        run.violation(rule, g, 'fixed-size access in range helper %s' % g.name, msg, line=site['l'])
+                    n += 1
+                    run.ob(rule, (callee, 'helper-checked'), True, {'helper': callee, 'length parameter': g.params[li]['n']})
             for role, ptr, length in ranges:
                 ea = elem_address(tu, ptr)
                 if ea is None:
